@@ -51,7 +51,9 @@ func NewPool(ctx ...context.Context) *Pool {
 	p.lock.RLock()
 	go func() {
 		defer cancel()
+		defer verifPoint("pool.unlocked")
 		defer p.lock.RUnlock()
+		defer verifPoint("pool.exit")
 		for i := 0; i < len(p.pool); i++ {
 			ch := p.pool[i]
 			p.lock.RUnlock()
@@ -59,6 +61,7 @@ func NewPool(ctx ...context.Context) *Pool {
 			case <-ch:
 			case <-p.closed:
 			}
+			verifPoint("pool.waited")
 			p.lock.RLock()
 		}
 	}()
